@@ -37,6 +37,8 @@ def unpack_4bitx2(data: npt.NDArray[np.uint8], dims: Sequence[int]) -> npt.NDArr
         A numpy array of int8/uint8 reshaped to dims.
     """
     assert data.dtype == np.uint8, "Input data must be of type uint8"
+    # The packed bytes are taken in logical (row-major) order whatever shape they come in
+    data = data.reshape(-1)
     result = np.empty([data.size * 2], dtype=data.dtype)
     array_low = data & np.uint8(0x0F)
     array_high = data & np.uint8(0xF0)
@@ -76,6 +78,8 @@ def unpack_2bitx4(data: npt.NDArray[np.uint8], dims: Sequence[int]) -> npt.NDArr
         A numpy array of int8/uint8 reshaped to dims.
     """
     assert data.dtype == np.uint8, "Input data must be of type uint8"
+    # The packed bytes are taken in logical (row-major) order whatever shape they come in
+    data = data.reshape(-1)
     result = np.empty([data.size * 4], dtype=data.dtype)
     result[0::4] = data & np.uint8(0x03)
     result[1::4] = (data & np.uint8(0x0C)) >> np.uint8(2)
